@@ -93,8 +93,13 @@ def init (dev : Device) (nQ : Nat) : SeqState := { dev := dev, nQ := nQ }
 
 def getChan (s : SeqState) (n : ChName) : Option ChanState := s.chans.find? (·.name == n)
 
+/-- Replace the (first) channel named like `c` — `self._schedule[name]` is a dict entry. -/
+def replaceChan (c : ChanState) : List ChanState → List ChanState
+  | [] => []
+  | x :: rest => if x.name == c.name then c :: rest else x :: replaceChan c rest
+
 def setChan (s : SeqState) (c : ChanState) : SeqState :=
-  { s with chans := s.chans.map fun x => if x.name == c.name then c else x }
+  { s with chans := replaceChan c s.chans }
 
 def others (s : SeqState) (n : ChName) : List ChanState := s.chans.filter (·.name != n)
 
@@ -134,6 +139,19 @@ def available (s : SeqState) (isDmm : Bool) (id : Nat) (cfg : ChanCfg) : Bool :=
     (!(s.occupied isDmm id) || s.dev.reusable) &&
     (if s.inXY then cfg.basis == .xy || isDmm else cfg.basis != .xy)
 
+/-- A freshly declared channel; global channels (and DMMs) start with their
+initial target slot. -/
+def freshChan (name : ChName) (chId : Nat) (cfg : ChanCfg) (qs : List Nat) (withTarget : Bool)
+    (maxW sumW : Rat) : ChanState :=
+  { name := name, chId := chId, cfg := cfg, maxW := maxW, sumW := sumW,
+    slots := if withTarget then [⟨.target, -1, 0, qs⟩] else [] }
+
+/-- Register a new channel: mode flags, schedule entry, phase references of its basis. -/
+def addChannel (s : SeqState) (c : ChanState) : SeqState :=
+  let s1 : SeqState :=
+    if c.cfg.basis == .xy then { s with inXY := true } else { s with inIsing := true }
+  ({ s1 with chans := s1.chans ++ [c] }).ensureBasis c.cfg.basis
+
 /-- `Sequence._validate_channel`. -/
 def validateChannel (s : SeqState) (n : ChName) (blockEom : Bool) : Except Err ChanState :=
   match s.getChan n with
@@ -166,27 +184,40 @@ def allSame : List Rat → Bool
   | [] => false
   | x :: rest => rest.all (· == x)
 
+/-- `limit is not None and x > limit`. -/
+def overRat (m : Option Rat) (x : Rat) : Bool :=
+  match m with
+  | some m => decide (x > m)
+  | none => false
+
+/-- `limit is not None and x < limit`. -/
+def underRat (m : Option Rat) (x : Rat) : Bool :=
+  match m with
+  | some m => decide (x < m)
+  | none => false
+
 /-- `Channel.validate_pulse` / `DMM.validate_pulse` on the oracle summary. -/
-def validatePulse (c : ChanState) (σ : PulseSummary) : Except Err Unit := do
-  if (match c.cfg.maxAmp with | some m => decide (σ.maxAmp > m) | none => false) then
-    throw .ampOverMax
-  if (match c.cfg.maxAbsDet with | some m => decide (σ.maxAbsDetR > m) | none => false) then
-    throw .detOverMax
-  if 0 < σ.avgAmp ∧ σ.avgAmp < c.cfg.minAvgAmp then throw .avgAmpLow
-  if c.cfg.isDmm then
-    if σ.maxDetR > 0 then throw .dmmPositive
-    if (match c.cfg.bottom with | some b => decide (c.maxW * σ.minDetR < b) | none => false) then
-      throw .dmmBottom
-    if (match c.cfg.totalBottom with
-        | some b => decide (c.sumW * σ.minDetR < b) | none => false) then
-      throw .dmmTotalBottom
+def validatePulse (c : ChanState) (σ : PulseSummary) : Except Err Unit :=
+  if overRat c.cfg.maxAmp σ.maxAmp then .error .ampOverMax
+  else if overRat c.cfg.maxAbsDet σ.maxAbsDetR then .error .detOverMax
+  else if 0 < σ.avgAmp ∧ σ.avgAmp < c.cfg.minAvgAmp then .error .avgAmpLow
+  else if !c.cfg.isDmm then .ok ()
+  else if σ.maxDetR > 0 then .error .dmmPositive
+  else if underRat c.cfg.bottom (c.maxW * σ.minDetR) then .error .dmmBottom
+  else if underRat c.cfg.totalBottom (c.sumW * σ.minDetR) then .error .dmmTotalBottom
+  else .ok ()
 
 /-- `Sequence._validate_and_adjust_pulse`: returns the pulse record to schedule. -/
 def validateAndAdjust (c : ChanState) (p : PulseIn) (phaseRef : Option Rat) :
-    Except Err PulseRec := do
-  validatePulse c p.sum
-  let d ← validateDuration c.cfg p.dur
-  if d ≠ p.dur ∧ !p.resizable then throw .notResizable
+    Except Err PulseRec :=
+  match validatePulse c p.sum with
+  | .error e => .error e
+  | .ok _ =>
+  match validateDuration c.cfg p.dur with
+  | .error e => .error e
+  | .ok d =>
+  if d ≠ p.dur ∧ !p.resizable then .error .notResizable
+  else
   let ph := fmtPhase (p.phase + (match phaseRef with | some r => r | none => 0))
   .ok { dur := d, phase := ph, post := p.post, fallStd := p.fallStd, fallEom := p.fallEom,
         dd := p.dd, ref := p.ref, sum := p.sum, const := p.const, amp := p.amp, det := p.det }
@@ -203,15 +234,21 @@ def closestIdx (opts : List Rat) (x : Rat) : Option Nat :=
   | o :: rest => some (go 0 (if o - x < 0 then x - o else o - x) 1 rest)
 
 /-- `Sequence._process_eom_parameters` (concrete arguments): the chosen detuning_off. -/
-def processEomParams (c : ChanState) (e : EomIn) : Except Err Rat := do
-  if e.amp < 0 then throw .badPulse
-  validatePulse c e.onSum
+def processEomParams (c : ChanState) (e : EomIn) : Except Err Rat :=
+  if e.amp < 0 then .error .badPulse
+  else
+  match validatePulse c e.onSum with
+  | .error er => .error er
+  | .ok _ =>
   match closestIdx e.opts e.optimal with
-  | none => throw .badPulse
+  | none => .error .badPulse
   | some i =>
     match e.opts[i]?, e.offSums[i]? with
-    | some detOff, some σ => validatePulse c σ; pure detOff
-    | _, _ => throw .badPulse
+    | some detOff, some σ =>
+      (match validatePulse c σ with
+       | .error er => .error er
+       | .ok _ => .ok detOff)
+    | _, _ => .error .badPulse
 
 /-- `_get_last_eom_pulse_phase_drift`. -/
 def lastEomPulseDrift (c : ChanState) : Drift :=
@@ -343,14 +380,9 @@ def stepRaw (s : SeqState) (op : Op) : Raw :=
        else if !s.inXY && cfg.basis == .xy then fail s .xyConflict
        else fail s .notAvailable)
     else
-    let s1 : SeqState :=
-      if cfg.basis == .xy then { s with inXY := true } else { s with inIsing := true }
-    let c : ChanState := { name := name, chId := chId, cfg := cfg }
-    let s2 := { s1 with chans := s1.chans ++ [c] }
-    let s3 := s2.ensureBasis cfg.basis
+    let s3 := s.addChannel (SeqState.freshChan name chId cfg s.allQubits (!cfg.isLocal) 1 1)
     let r : Raw :=
-      if !cfg.isLocal then
-        done (s3.setChan { c with slots := [⟨.target, -1, 0, s3.allQubits⟩] })
+      if !cfg.isLocal then done s3
       else match init with
         | some qs => targetCore s3 qs name
         | none => done s3
@@ -364,12 +396,8 @@ def stepRaw (s : SeqState) (op : Op) : Raw :=
     else if !s.available true dmmId cfg then fail s .notAvailable
     else
     let k := (s.chans.filter fun c => match c.name with | .dmm i _ => i == dmmId | _ => false).length
-    let name := ChName.dmm dmmId k
-    let s1 := { s with inIsing := true }
-    let c : ChanState := { name := name, chId := dmmId, cfg := cfg, maxW := maxW, sumW := sumW,
-                           slots := [⟨.target, -1, 0, s.allQubits⟩] }
-    let s2 := { s1 with chans := s1.chans ++ [c] }
-    store op (done (s2.ensureBasis .groundRydberg))
+    let c := SeqState.freshChan (ChName.dmm dmmId k) dmmId cfg s.allQubits true maxW sumW
+    store op (done (s.addChannel c))
   | .target qs n => store op (targetCore s qs n)
   | .add p n proto =>
     store op <| markNonEmpty <|
